@@ -554,6 +554,39 @@ pub fn run(ctx: &RunCtx) -> i32 {
     let rt = new_runtime();
     check_ip_hosts(&rt, &mut total);
     check_domain_constructors(&mut total);
+    // (b0) the extremes together: longest / shortest bucket name x key length at the limit x how much of the key is
+    // percent-encoded on the wire (nothing, every byte: 1-, 2-, 3-, 4-byte characters, spaces) x host parser x operation
+    {
+        let buckets = [format!("b{}", "x".repeat(62)), "abc".to_owned(), format!("{}.{}", "a".repeat(31), "b".repeat(31)), format!("b{}", "y".repeat(61))];
+        let units = ["a", " ", "\u{e9}", "\u{65e5}", "\u{1F600}", "%", "a/", "+", "~"];
+        let mut cases: Vec<Case> = Vec::new();
+        for b in &buckets {
+            for unit in units {
+                for n in [1021usize, 1022, 1023, 1024, 1025, 1026, 1028] {
+                    let mut key = String::new();
+                    while key.len() + unit.len() <= n {
+                        key.push_str(unit);
+                    }
+                    // (pad with the unit's own kind where the unit does not divide the length)
+                    while key.len() < n {
+                        key.push(if unit == "a" || unit == "a/" { 'x' } else { ' ' });
+                    }
+                    for (hc, dom) in [(HostCfg::None, String::new()), (HostCfg::Single("s3.verif.example".into()), "s3.verif.example".to_owned())] {
+                        for op in ["PutObject", "GetObject", "DeleteObject"] {
+                            cases.push(Case { op: op.into(), bucket: b.clone(), key: key.clone(), host_cfg: hc.clone(), domain: dom.clone(), path_host: "127.0.0.1:9000".into() });
+                        }
+                    }
+                }
+            }
+        }
+        let cases_ref = &cases;
+        let rep = par_run(ctx.workers, cases.len() as u64, |j, r| {
+            let rt = new_runtime();
+            judge(&rt, r, &cases_ref[j as usize]);
+        });
+        total.merge(rep);
+        total.note(format!("extremes product: {} cases (4 bucket names x 9 key alphabets x 7 key lengths x 2 host configurations x 3 operations)", cases.len()));
+    }
     // (b) requests
     let n_cases = ctx.tier.sz(600_000, 60_000_000);
     let per = 200u64;
